@@ -104,4 +104,19 @@ structure Valid (ctx : Ctx) : Prop where
   /-- scopes: operation types resolve -/
   ops : ∀ s ∈ ctx.self.scopes, ∀ o ∈ s.ops, Resolves ctx o.ty
 
+/-- Includes resolve and are acyclic: the files of the directory are listed so that every include
+of a file names (`<name>.frugal`) a file listed AFTER it. (An include graph is acyclic exactly
+when such a listing exists; the first file is the one given to the compiler.) -/
+def IncludesLater : Prog → Prop
+  | [] => True
+  | f :: rest => (∀ v ∈ f.includes, ∃ g ∈ rest, v = g.name ++ frugalExt) ∧ IncludesLater rest
+
+/-- A valid program: distinct file names, includes that resolve and are acyclic, every file valid
+in the context of its includes. -/
+structure ValidProg (p : Prog) : Prop where
+  nonempty : p ≠ []
+  distinct : (p.map (·.name)).Nodup
+  includes : IncludesLater p
+  files : ∀ f ∈ p, Valid (ctxOf p f)
+
 end FV.Compile
